@@ -19,7 +19,7 @@ from harness.common.framework import Prop, CaseTimeout
 from harness import c11_geno as G
 from translate import t_c11
 
-ENUM_CAP = {'quick': 250, 'thorough': 600}
+ENUM_CAP = {'quick': 160, 'thorough': 600}
 SWEEP_CAP = 80
 
 
@@ -27,7 +27,7 @@ SWEEP_CAP = 80
 # pyglove side helpers (imported lazily)
 # ------------------------------------------------------------------------------------------
 
-def build_spec(j):
+def build_spec(j, touch=False):
   from pyglove.core import geno
   from pyglove.core import utils
 
@@ -39,9 +39,21 @@ def build_spec(j):
       return v['f'][0] / v['f'][1]
     return v
 
+  def touched(x):
+    # a spec built in steps: the part is inspected (ids, look-up by id) while it still stands alone,
+    # then composed into the larger space, where its ids change
+    if touch:
+      ids = x.decision_ids
+      if ids:
+        x.get(ids[0])
+    return x
+
   def point(p):
+    return touched(point_(p))
+
+  def point_(p):
     if p['t'] == 'c':
-      cands = [geno.Space(elements=[point(q) for q in c]) for c in p['cands']]
+      cands = [touched(geno.Space(elements=[point(q) for q in c])) for c in p['cands']]
       lits = None if p.get('lits') is None else [lit(v) for v in p['lits']]
       return geno.Choices(num_choices=p['k'], candidates=cands, distinct=p['d'], sorted=p['s'],
                           literal_values=lits, name=p.get('name'), location=loc(p))
@@ -234,8 +246,8 @@ class C11(Prop):
 
   def generate(self, rng, tier):
     cap = ENUM_CAP[tier]
-    n_rand = 240 if tier == 'quick' else 2000
-    n_inf = 90 if tier == 'quick' else 700
+    n_rand = 120 if tier == 'quick' else 2000
+    n_inf = 60 if tier == 'quick' else 700
     for _ in range(n_rand):
       yield self.make_case(G.gen_spec(rng, False, cap), rng, cap=cap)
     for _ in range(n_inf):
@@ -252,7 +264,7 @@ class C11(Prop):
       yield self.make_case(G.S([G.C(1, [[], [G.F([lo, 1], [hi, 1], scale=scale)]], True, False),
                                 G.F([lo, 4], [lo, 1], scale=scale)]), rng, n_members=1, n_corrupt=2, n_random=3, cap=cap)
     # custom decision points with user hooks (first_dna / next_dna / iter_dna go through the hooks)
-    for _ in range(40 if tier == 'quick' else 400):
+    for _ in range(24 if tier == 'quick' else 400):
       yield self.hooked_case(rng)
     # the exhaustive depth-1 family (and a slice of depth 2 built on top of it)
     fam = list(G.family_points())
@@ -270,14 +282,14 @@ class C11(Prop):
       picked = []
       for key in sorted(cells, key=repr):
         group = cells[key]
-        picked += rng.sample(group, min(len(group), 6 if key[0] > 1 else 4))
+        picked += rng.sample(group, min(len(group), 3 if key[0] > 1 else 2))
     else:
       picked = fam      # all 3012; fully enumerated when the size bound is <= cap (1844 of them)
     for p in picked:
       yield self.make_case(p, rng, n_members=2, n_corrupt=6, n_random=1, cap=cap)
     # spaces of two family points, family points as conditional candidates (depth 2)
     pool = [p for p in G.family_points(max_n=3, max_k=2) if G.size_bound(p) <= 12]
-    n2 = 60 if tier == 'quick' else 1500
+    n2 = 30 if tier == 'quick' else 1500
     for _ in range(n2):
       a, b = rng.choice(pool), rng.choice(pool)
       if rng.chance(0.5):
@@ -803,7 +815,8 @@ class C11(Prop):
         yield c
 
   def search_cases(self, rng, tier, broken):
-    for _ in range(2):
+    # quick: one more pass of the (light) quick generator, so that the search ends within about a minute
+    for _ in range(1 if tier == 'quick' else 2):
       yield from self.generate(rng.fork(), tier)
 
 
